@@ -33,11 +33,17 @@ def _self_attr(e):
 def _calls_in(node):
     """clause-renderer calls inside an expression / statement, in source order"""
     out = []
+    loopvars = {}
+    for n in ast.walk(node):
+        if isinstance(n, ast.GeneratorExp) and len(n.generators) == 1 and isinstance(n.generators[0].target, ast.Name):
+            it = _self_attr(n.generators[0].iter)
+            if it:
+                loopvars[n.generators[0].target.id] = it
     for n in ast.walk(node):
         if isinstance(n, ast.Call) and isinstance(n.func, ast.Attribute):
             if _self_attr(n.func) and (n.func.attr.endswith("_sql") or n.func.attr == "_apply_pagination"):
                 out.append((n.lineno, n.col_offset, n.func.attr))
-            elif n.func.attr == "get_sql" and isinstance(n.func.value, ast.Name) and n.func.value.id == "join":
+            elif n.func.attr == "get_sql" and isinstance(n.func.value, ast.Name) and loopvars.get(n.func.value.id) == "_joins":
                 out.append((n.lineno, n.col_offset, "join.get_sql"))
         if isinstance(n, ast.Call) and isinstance(n.func, ast.Name) and n.func.id == "format_alias_sql":
             out.append((n.lineno, n.col_offset, "format_alias_sql"))
@@ -55,6 +61,9 @@ def _guard(test):
     raise RuntimeError("guard not understood at line %d: %s" % (test.lineno, ast.dump(test)[:200]))
 
 
+ACC = ["querystring", "kwargs"]     # names of the accumulator variable and of the ** parameter (set by select_path)
+
+
 def _linear(stmts, guard, out):
     """linearise a statement list: (guard, call) in execution order; raise on anything unexpected"""
     for s in stmts:
@@ -65,7 +74,7 @@ def _linear(stmts, guard, out):
                 raise RuntimeError("unexpected else at line %d" % s.lineno)
         elif isinstance(s, (ast.AugAssign, ast.Assign)):
             tgt = s.target if isinstance(s, ast.AugAssign) else s.targets[0]
-            if isinstance(tgt, ast.Name) and tgt.id == "querystring":
+            if isinstance(tgt, ast.Name) and tgt.id == ACC[0]:
                 cs = _calls_in(s.value)
                 if not cs:
                     if isinstance(s.value, ast.Call) and isinstance(s.value.func, ast.Attribute) and s.value.func.attr == "format":
@@ -76,7 +85,7 @@ def _linear(stmts, guard, out):
                         raise RuntimeError("assignment to querystring not understood at line %d" % s.lineno)
                 for c in cs:
                     out.append((guard, c))
-            elif isinstance(tgt, ast.Subscript) and isinstance(tgt.value, ast.Name) and tgt.value.id == "kwargs":
+            elif isinstance(tgt, ast.Subscript) and isinstance(tgt.value, ast.Name) and tgt.value.id == ACC[1]:
                 pass
             else:
                 raise RuntimeError("assignment not understood at line %d" % s.lineno)
@@ -91,6 +100,10 @@ def select_path():
     tree = ast.parse(_src())
     g = _method(tree, "QueryBuilder", "get_sql")
     body = list(g.body)
+    rets = [x for x in body if isinstance(x, ast.Return) and isinstance(x.value, ast.Name)]
+    if len(rets) != 1 or g.args.kwarg is None:
+        raise RuntimeError("QueryBuilder.get_sql: final return / ** parameter not found")
+    ACC[0], ACC[1] = rets[0].value.id, g.args.kwarg.arg
     # prologue: _set_kwargs_defaults, three early returns, the five has_* assignments, kwargs["with_namespace"] = any([...])
     i = 0
     ns_terms = None
@@ -150,7 +163,7 @@ def _item_call(fn, owner):
         star = False
         for k in c.keywords:
             if k.arg is None:
-                if not (isinstance(k.value, ast.Name) and k.value.id == "kwargs"):
+                if not (isinstance(k.value, ast.Name) and fn.args.kwarg is not None and k.value.id == fn.args.kwarg.arg):
                     raise RuntimeError("%s: ** of something else than kwargs" % owner)
                 star = True
             elif k.arg in ("with_alias", "subquery"):
@@ -194,7 +207,7 @@ def pagination_guards():
                 raise RuntimeError("_apply_pagination: branch not understood")
             out.append((_guard(s.test), cs[0]))
         elif isinstance(s, ast.Return):
-            if not (isinstance(s.value, ast.Name) and s.value.id == "querystring"):
+            if not (isinstance(s.value, ast.Name) and s.value.id == fn.args.args[1].arg):
                 raise RuntimeError("_apply_pagination: return not understood")
         else:
             raise RuntimeError("_apply_pagination: statement not understood")
@@ -223,8 +236,6 @@ def table_text():
            "From PV Require Import Base.", "",
            "(* (guard attribute, clause renderer) in the order QueryBuilder.get_sql calls them on the SELECT path *)",
            "Definition x_select_path : list (string * string) :=\n  " + L([P(S(g), S(c)) for g, c in path]) + ".",
-           "(* the disjuncts of kwargs[\"with_namespace\"] = any([...]) *)",
-           "Definition x_namespace_terms : list (string * string) :=\n  " + L([P(S(n), S(v)) for n, v in ns]) + ".",
            "(* clause renderer -> (with_alias, subquery) literals passed to its items, is with_namespace forwarded, separators *)",
            "Definition x_item_flags : list (string * (bool * bool * bool) * list string) :=\n  "
            + L([P(S(n), P(B(wa), B(sq), B(fwd)), L([S(x) for x in seps])) for n, wa, sq, fwd, seps in rows]) + ".",
